@@ -6,6 +6,7 @@
 pub mod sym;
 pub mod util;
 pub mod big;
+pub mod acc;
 pub mod uf;
 pub mod ops;
 
